@@ -41,7 +41,13 @@ RULE = ("TLC enumerates every obstacle descriptor of MC_Occupancy.tla: dynamic o
         "for trajectory targets (2 shapes x 2 (t0, gap) x 4 state kinds), set-based, no-prediction, static, phantom and "
         "environment targets; each executed cold (modify, query) and warm (query, modify, query): occupancy_at_time / "
         "state_at_time of the target, occupancies_at_time_step and obstacle_states_at_time_step for every t, two "
-        "position queries; expected answers are those of Modify(o, m) computed by the trace spec.  distinct_nontrivial = distinct dynamic "
+        "position queries; expected answers are those of Modify(o, m) computed by the trace spec.  SHARED DATA: a second "
+        "obstacle built from the same state-list object (2 state kinds), the same Shape objects, or the same occupancy-list "
+        "object as the first; only the first is moved (3 lattice motions via obstacle / prediction / trajectory."
+        "translate_rotate), cold and with the second obstacle's occupancies warmed; the second obstacle (alone in the "
+        "scenario) is queried per obstacle and at scenario level for every t; its CURRENT primary data (initial state, "
+        "state list, shapes, stored occupancies) are read back through public accessors and every answer must be the one "
+        "these data imply (whether the second obstacle moved along is only counted: shared_data_aliasing).  distinct_nontrivial = distinct dynamic "
         "descriptors with a prediction or an uncertain state + distinct scenarios with >= 2 obstacles.")
 ASSUMPTIONS = ["poses on the integer lattice with quarter-turn orientations; point-mass velocities on the 4 axis directions",
                "shapes have their centroid at the shape origin; shape groups are centred or used at q = 0 only "
@@ -130,12 +136,17 @@ def cases(ctx):
         c["src"] = "tlc"
     for _ in range(1500 if ctx.thorough else 150):
         cs.append(_rnd_ob(ctx.rng))
+    al = _aliasing_summary(cs)
+    ctx.extra["shared_data_aliasing"] = al
+    ctx.notes.append("shared-data cases in which the unmodified second obstacle moved along with the first (observation, "
+                     "not part of the statement): %s" % ", ".join("%s %d/%d" % (k, v["aliased"], v["cases"])
+                                                                  for k, v in sorted(al.items())))
     return cs
 
 
 def nontrivial(case):
     if case["kind"] == "hist":
-        return json.dumps([case["S"][0], case["m"]], sort_keys=True)
+        return json.dumps([case["S"][0 if "share" not in case["m"] else 1], case["m"]], sort_keys=True)
     if case["kind"] == "sc":
         return ("sc",) + tuple(o["id"] for o in case["S"]) if len(case["S"]) >= 2 else None
     o = case["o"]
@@ -611,10 +622,166 @@ def _exec_hist(case):
     return {"ev": ev}
 
 
+def _ri(v):
+    return int(round(float(v)))
+
+
+def _state_desc(st):
+    """a real (exact) state -> state record of Occupancy.tla (projection: lattice rounding, quarter-turn index)"""
+    from commonroad.scenario.state import CustomState, InitialState, PMState
+    if isinstance(st, InitialState):
+        kind = "initial"
+    elif isinstance(st, PMState):
+        kind = "pm"
+    elif isinstance(st, CustomState):
+        kind = "custom" if hasattr(st, "orientation") else "custompm"
+    else:
+        kind = "oriented"
+    pm = kind in ("pm", "custompm")
+    q = 0 if pm else max(_quarter(getattr(st, "orientation", None))[0], 0)
+    return {"k": "state", "kind": kind, "t": int(st.time_step), "x": _ri(st.position[0]), "y": _ri(st.position[1]), "q": q,
+            "vx": _ri(st.velocity) if pm else 0, "vy": _ri(st.velocity_y) if pm else 0, "unc": "none"}
+
+
+def _shape_desc(sh):
+    """a real obstacle shape (about the shape origin) -> shape record"""
+    from commonroad.geometry.shape import Circle, Polygon, Rectangle, ShapeGroup
+    if isinstance(sh, Rectangle):
+        return {"k": "rect", "a": _ri(sh.length), "b": _ri(sh.width)}
+    if isinstance(sh, Circle):
+        return {"k": "disc", "a": _ri(sh.radius)}
+    if isinstance(sh, Polygon):
+        return {"k": "poly", "v": [[_ri(p[0]), _ri(p[1])] for p in sh.vertices[:-1]]}
+    if isinstance(sh, ShapeGroup):
+        return {"k": "group", "parts": [{"a": _ri(p.length), "b": _ri(p.width), "cx": _ri(p.center[0]), "cy": _ri(p.center[1])}
+                                        for p in sh.shapes]}
+    raise ValueError("no descriptor for %r" % (sh,))
+
+
+def _observe(ob):
+    """CURRENT primary data of a dynamic obstacle, read through public accessors only (no cache is touched):
+    initial_state, obstacle_shape, prediction.trajectory.state_list + prediction.shape / prediction.occupancy_set"""
+    from commonroad.prediction.prediction import SetBasedPrediction, TrajectoryPrediction
+    pr = ob.prediction
+    if isinstance(pr, TrajectoryPrediction):
+        pred = {"k": "traj", "g": 0, "states": [_state_desc(x) for x in pr.trajectory.state_list], "shape": _shape_desc(pr.shape)}
+    elif isinstance(pr, SetBasedPrediction):
+        pred = {"k": "set", "g": 0, "occs": [{"t": int(c.time_step), "region": _shape_key(c.shape)} for c in pr.occupancy_set]}
+    else:
+        pred = {"k": "none"}
+    return {"k": "observed", "id": ob.obstacle_id, "init": _state_desc(ob.initial_state), "shape": _shape_desc(ob.obstacle_shape),
+            "pred": pred}
+
+
+def _build_sharing(o2, first, share):
+    """the second obstacle, built from the SAME state list / Shape / occupancy list object as `first`"""
+    from commonroad.prediction.prediction import SetBasedPrediction, TrajectoryPrediction
+    from commonroad.scenario.obstacle import DynamicObstacle, ObstacleType
+    from commonroad.scenario.trajectory import Trajectory
+    typ, init = ObstacleType(o2["type"]), _state(o2["init"])
+    if share == "states":
+        lst = first.prediction.trajectory.state_list                 # the list object handed out by the accessor
+        return DynamicObstacle(o2["id"], typ, _shape(o2["shape"]), init,
+                               TrajectoryPrediction(Trajectory(lst[0].time_step, lst), _shape(o2["shape"])))
+    if share == "shape":
+        sts = o2["pred"]["states"]
+        return DynamicObstacle(o2["id"], typ, first.obstacle_shape, init,
+                               TrajectoryPrediction(Trajectory(sts[0]["t"], [_state(x) for x in sts]), first.prediction.shape))
+    if share == "occs":
+        lst = first.prediction.occupancy_set                         # one list of Occupancy objects for two predictions
+        return DynamicObstacle(o2["id"], typ, _shape(o2["shape"]), init, SetBasedPrediction(o2["pred"]["occs"][0]["t"], lst))
+    raise ValueError("unknown sharing %r" % share)
+
+
+def _exec_shared(case):
+    """Two obstacles built from one data object; only the FIRST is moved.  The statement does not say whether the SECOND
+    moves along; it must answer consistently with its CURRENT primary data (read back with _observe and logged as the
+    `observed` modification; the trace spec recomputes every answer from it), per obstacle and at scenario level."""
+    import numpy as np
+    from commonroad.common.util import Interval
+    from crv import gamma
+    S, m, tmax = case["S"], case["m"], case["tmax"]
+    o1, o2 = S
+    S_ev = [o2]
+    ev = []
+    via = {"obstacle": "obstacle", "prediction": "prediction", "trajectory": "trajectory"}[m["via"]]
+    for variant in ("cold", "warm"):
+        suffix = "/shared-%s/after-%s.translate_rotate/%s" % (m["share"], via, variant)
+        first = _build(o1)
+        ob = _build_sharing(o2, first, m["share"])
+        sc = gamma.scenario()
+        sc.add_objects([ob])
+
+        def q(fn):
+            try:
+                return fn()
+            except Exception as ex:
+                return _exc(ex)
+
+        def round_(extra, sfx, full):
+            for t in range(0, tmax + 1):
+                ev.append(dict({"op": "occupancy_at_time", "o": o2, "t": t, "res": q(lambda: _occ_key(ob.occupancy_at_time(t))),
+                                "sig": _sig("occupancy_at_time", o2, t) + sfx}, **extra))
+                ev.append(dict({"op": "occupancies_at_time_step", "S": S_ev, "t": t, "role": "any",
+                                "res": q(lambda: {"k": "ok", "occs": [_occ_key(c) for c in sc.occupancies_at_time_step(t)]}),
+                                "sig": "occupancies_at_time_step/role=any" + sfx}, **extra))
+                if not full:
+                    continue
+                ev.append(dict({"op": "state_at_time", "o": o2, "t": t, "res": q(lambda: _state_key(ob.state_at_time(t))),
+                                "sig": "state_at_time/%s/%s/t=%s" % (o2["role"], o2["pred"]["k"], _where(o2, t)) + sfx}, **extra))
+                ev.append(dict({"op": "obstacle_states_at_time_step", "S": S_ev, "t": t,
+                                "res": q(lambda: {"k": "ok", "states": [dict(_state_key(x), id=i) for i, x in
+                                                                        sorted(sc.obstacle_states_at_time_step(t).items())]}),
+                                "sig": "obstacle_states_at_time_step" + sfx}, **extra))
+            if full:
+                for tq in (o2["t0"], o2["t0"] + 1):
+                    for iv in case["ivs"]:
+                        ev.append(dict({"op": "obstacles_by_position_intervals", "S": S_ev, "ix": iv, "iy": iv,
+                                        "roles": ["dynamic", "static"], "t": tq,
+                                        "res": q(lambda: {"k": "ok", "ids": [x.obstacle_id for x in sc.obstacles_by_position_intervals(
+                                            [Interval(iv[0], iv[1]), Interval(iv[0], iv[1])], time_step=tq)]}),
+                                        "sig": "obstacles_by_position_intervals/roles=default/plain" + sfx}, **extra))
+        if variant == "warm":
+            round_({}, "/warm-up", False)
+        before = _observe(ob)
+        tr, ang = np.array([float(m["tx"]), float(m["ty"])]), (m["q"] % 4) * math.pi / 2
+        try:
+            if m["via"] == "obstacle":
+                first.translate_rotate(tr, ang)
+            elif m["via"] == "prediction":
+                first.prediction.translate_rotate(tr, ang)
+            else:
+                first.prediction.trajectory.translate_rotate(tr, ang)
+        except Exception as ex:
+            ev.append({"op": "occupancy_at_time", "o": o2, "t": o2["t0"], "res": _exc(ex), "sig": "modify" + suffix})
+            continue
+        cur = _observe(ob)
+        # aliased: informational only (the second obstacle's data changed although it was never modified itself)
+        round_({"m": cur, "moved": m, "aliased": 0 if cur == before else 1}, suffix, True)
+    return {"ev": ev}
+
+
+def _aliasing_summary(cs):
+    """informational: in which shared-data cases the second obstacle's primary data moved along with the first"""
+    use_repo()
+    import warnings
+    warnings.simplefilter("ignore")
+    out = {}
+    for c in cs:
+        if c["kind"] == "hist" and "share" in c["m"]:
+            key = "shared-%s/%s.translate_rotate" % (c["m"]["share"], c["m"]["via"])
+            d = out.setdefault(key, {"cases": 0, "aliased": 0})
+            d["cases"] += 1
+            d["aliased"] += 1 if any(e.get("aliased") for e in _exec_shared(c)["ev"]) else 0
+    return out
+
+
 def execute(case):
     use_repo()
     import warnings
     warnings.simplefilter("ignore")
+    if case["kind"] == "hist" and "share" in case["m"]:
+        return _exec_shared(case)
     if case["kind"] == "hist":
         return _exec_hist(case)
     return _exec_sc(case) if case["kind"] == "sc" else _exec_ob(case)
